@@ -24,4 +24,8 @@ static inline uint64_t tsaf_get_pcr(const uint8_t *p)
     return ((uint64_t)p[6] << 25) | (p[7] << 17) | (p[8] << 9) | (p[9] << 1) | (p[10] >> 7);
 }
 static inline uint64_t tsaf_get_pcrext(const uint8_t *p) { return ((p[10] & 1) << 8) | p[11]; }
+/* continuity counter helpers (ISO 13818-1 2.4.3.3: the counter increments with each packet carrying payload;
+ * a duplicate carries the same value) */
+static inline bool ts_check_duplicate(uint8_t cc, uint8_t last_cc) { return last_cc == cc; }
+static inline bool ts_check_discontinuity(uint8_t cc, uint8_t last_cc) { return (last_cc + 17 - cc) % 16; }
 #endif
